@@ -51,6 +51,12 @@ def scenarios(tier, seed=0):
     for irr in (["smt", "net80"] if q else irrs):
         c = A._b(crop="maize.2", irr=irr, iwc="WP", win={"pre": 3, "seasons": 4}, word="mix", soil="Clay")
         yield {"kind": "config", "config": c}
+    # a window that opens AFTER the planting day of its first calendar year (the first partial season is dropped: season numbers and
+    # simulation years no longer line up), C3 crops under the default yearly CO2 record and under a steep user table
+    for ck, pre, co2 in itertools.product(["cotton.2", "potato.2"], [-30, -200], [None, {"table": [[1990, 340.0], [2001, 380.0], [2002, 450.0], [2003, 520.0], [2004, 600.0], [2050, 900.0]]}]):
+        spec = A.to_spec(A._b(crop=ck, irr="smt", iwc="FC", word="normal", win={"pre": pre, "seasons": 3}, soil="SandyLoam"))
+        spec["co2"] = co2
+        yield {"kind": "spec", "spec": spec, "label": ["start-after-planting", ck, pre, bool(co2)]}
     # short thermal-time crops under sustained heat (pollination fails on the record's temperatures; anything that alters the
     # temperatures a later season sees shows against the run started at that season)
     for word, irr, meth in itertools.product(["scorch", "hot", "coolnights"], ["smt", "none"] if not q else ["smt"], [1, 2, 3]):
